@@ -119,7 +119,8 @@ EXTRA3 = {
  "C11": " Also: ParseNumber/ParseNumberN reject a value above 2^32-1 inside the accumulation loop, on every digit (a check after the loop sees an accumulator that already wrapped).",
  "C13": " Also: the MIME splitter returns a part from the position at which the scan for it started (read once, outside the loop that skips false delimiter matches) and records that same position as the part's offset.",
  "C14": " Also: listInferiors selects a name only through listSuperiors membership or the prefix parent+delimiter (no looser substring/suffix test).",
- "C16": " Also: every nil-error return of snapshot.getMessagesInRange is dominated by the interval resolution that validates each member (no fast path answers OK for a set with an invalid member); ParseNumber bounds the value on every digit; a client's 0 never becomes a sequence number (ParseNZNumber proved >= 1, SeqNum conversions take its result); every SeqInterval/UIDInterval is built with begin <= end proved on every path (reversed and *-anchored ranges); getMessagesInUIDRange has no error of its own (missing UIDs are skipped).",
+ "C15": " Also: the mapper from a matching message to the reported number returns the UID exactly when contexts.IsUID(ctx) is true and the sequence number otherwise (reaching definitions per branch outcome; helper and variable forms).",
+ "C16": " Also: getMessagesInRange dispatches to the UID lookup exactly on the IsUID edge; every nil-error return of snapshot.getMessagesInRange is dominated by the interval resolution that validates each member (no fast path answers OK for a set with an invalid member); ParseNumber bounds the value on every digit; a client's 0 never becomes a sequence number (ParseNZNumber proved >= 1, SeqNum conversions take its result); every SeqInterval/UIDInterval is built with begin <= end proved on every path (reversed and *-anchored ranges); getMessagesInUIDRange has no error of its own (missing UIDs are skipped).",
  "C17": " Also: the statements behind the counts that feed the limit checks count every row (SELECT COUNT(*) without WHERE/JOIN/GROUP).",
  "C18": " Also: State.Select/Examine install the new snapshot last (no failure return is reachable after State.snap is set).",
  "C19": " Also: the lock-order graph includes generic instantiations.",
